@@ -187,6 +187,84 @@ pub fn worker_weq(req: &J) -> J {
     }
 }
 
+/// a resolver over a chain of n records that exist only as a rule: @nK is {id:@nK, a:@n(K+1), equipRef:@n(K+1), equip}; the last
+/// record points at @target when `hit`, and carries no ref otherwise. No cycle, any length, no memory.
+pub struct ChainResolver {
+    pub n: usize,
+    pub hit: bool,
+}
+
+impl PathResolver for ChainResolver {
+    fn resolve_for(&self, root: &Dict, path: &Path) -> Value {
+        // like DbResolver: a->b looks b up in the dict, or in the record the Ref names
+        let mut cur: Value = Value::Dict(root.clone());
+        for seg in path.iter() {
+            let d = match &cur {
+                Value::Dict(d) => d.clone(),
+                Value::Ref(r) => match self.resolve_ref(r) {
+                    Some(d) => d,
+                    None => return Value::Null,
+                },
+                _ => return Value::Null,
+            };
+            cur = d.get(&seg.to_string()).cloned().unwrap_or(Value::Null);
+            if cur.is_null() {
+                break;
+            }
+        }
+        cur
+    }
+    fn resolve(&self, _path: &Path) -> Value {
+        Value::Null
+    }
+    fn resolve_ref(&self, reference: &Ref) -> Option<Dict> {
+        let k: usize = reference.value.strip_prefix('n')?.parse().ok()?;
+        if k >= self.n {
+            return None;
+        }
+        let mut d = Dict::new();
+        d.insert("id".into(), Value::make_ref(&format!("n{k}")));
+        d.insert("equip".into(), Value::Marker);
+        let next = if k + 1 < self.n { Some(format!("n{}", k + 1)) } else if self.hit { Some("target".to_string()) } else { None };
+        match next {
+            Some(r) => {
+                d.insert("a".into(), Value::make_ref(&r));
+                d.insert("equipRef".into(), Value::make_ref(&r));
+            }
+            None => {
+                d.insert("a".into(), Value::make_str("end"));
+            }
+        }
+        Some(d)
+    }
+}
+
+/// worker side of filter.chain: `a *== @target` or `containedBy? @target` over a long chain of refs without a cycle
+pub fn worker_chain(req: &J) -> J {
+    let n = req["n"].as_u64().unwrap_or(1) as usize;
+    let hit = req["hit"].as_bool().unwrap_or(false);
+    let kind = req["kind"].as_str().unwrap_or("weq");
+    let text = if kind == "weq" { "a *== @target" } else { "containedBy? @target" };
+    let f = match Filter::try_from(text) {
+        Ok(f) => f,
+        Err(e) => return json!({"outcome":"err","msg":e.to_string()}),
+    };
+    let resolver = ChainResolver { n, hit };
+    let mut rec = Dict::new();
+    rec.insert("id".into(), Value::make_ref("start"));
+    rec.insert("point".into(), Value::Marker);
+    rec.insert("a".into(), Value::make_ref("n0"));
+    rec.insert("equipRef".into(), Value::make_ref("n0"));
+    static REAL_NS: std::sync::OnceLock<Option<libhaystack::defs::namespace::Namespace<'static>>> = std::sync::OnceLock::new();
+    let ns = REAL_NS.get_or_init(|| crate::ops_defs::real_defs_grid().ok().map(libhaystack::defs::namespace::Namespace::make));
+    let Some(ns) = ns.as_ref() else { return json!({"outcome":"err","msg":"defs.zinc not readable"}) };
+    let r = guarded(|| {
+        let ctx = EvalContext::make(&rec, ns, &resolver);
+        f.eval(&ctx)
+    });
+    json!({"outcome":"ok","truth":truth(r)})
+}
+
 fn truth(r: Result<bool, String>) -> J {
     match r {
         Ok(b) => J::from(if b { "T" } else { "F" }),
@@ -280,6 +358,15 @@ pub fn run(vec: &J, out: &mut Out, wk: &mut Worker) -> Result<(), String> {
                 }
             };
             out.emit(json!({"op":"filter.weq","rec":vec["rec"],"db":vec["db"],"path":vec["path"],"target":vec["target"],"text":vec["text"],"truth":t}));
+            Ok(())
+        }
+        "filter.chain" => {
+            let t = match wk.call(&json!({"w":"filter.chain","n":vec["n"],"hit":vec["hit"],"kind":vec["kind"]}), 20000) {
+                Ok(r) if r["outcome"] == "ok" => r["truth"].clone(),
+                Ok(r) => return Err(format!("filter.chain vector not executable: {}", r["msg"])),
+                Err(f) => J::from(f),
+            };
+            out.emit(json!({"op":"filter.chain","n":vec["n"],"hit":vec["hit"],"kind":vec["kind"],"truth":t}));
             Ok(())
         }
         "filter.rel" => {
